@@ -762,11 +762,14 @@ pub fn module_shape(e: &EnumSpec, o: &ModOpts) -> ModuleSrc {
     let ty = format!("{}{}", name, g.inst);
     src.push(&format!("impl vrt::shapefam::ShGlue for {} {{", ty));
     let meth = |v: &VariantSpec| crate::model::snake_method(&v.ident);
-    // is_*
+    // is_*  (for a disabled variant no predicate may answer true: the call below resolves to the derive's
+    // inherent method if one was generated after all, otherwise to the harness's fallback trait)
     src.push("    fn is(&self, j: usize) -> Option<bool> { match j {");
     for (j, v) in e.variants.iter().enumerate() {
         if !v.disabled() {
             src.tagged(&format!("        {} => Some(self.is_{}()),", j, meth(v)), "C13:is-method-name");
+        } else if !disabled_probe_clash(e, v) {
+            src.push(&format!("        {} => {{ use self::probe_{}::P; Some(self.is_{}()) }}", j, j, meth(v)));
         }
     }
     src.push("        _ => None } }");
@@ -817,9 +820,25 @@ pub fn module_shape(e: &EnumSpec, o: &ModOpts) -> ModuleSrc {
     }
     src.push("    } }");
     src.push("}");
+    for (j, v) in e.variants.iter().enumerate() {
+        if v.disabled() && !disabled_probe_clash(e, v) {
+            src.push(&format!(
+                "mod probe_{j} {{ pub trait P {{ fn is_{m}(&self) -> bool {{ false }} }} impl P for super::{ty} {{}} }}",
+                j = j,
+                m = meth(v),
+                ty = ty
+            ));
+        }
+    }
     src.push(&format!("pub fn run(ctx: &mut vrt::Ctx) {{ {}::<{}>(ctx) }}", o.run_fn, ty));
     src.push("}");
     ModuleSrc { enum_name: e.name.clone(), src }
+}
+
+/// a disabled variant whose predicate name coincides with an enabled variant's cannot be probed
+fn disabled_probe_clash(e: &EnumSpec, v: &VariantSpec) -> bool {
+    let m = crate::model::snake_method(&v.ident);
+    e.variants.iter().any(|w| !w.disabled() && crate::model::snake_method(&w.ident) == m)
 }
 
 // ---------------------------------------------------------------------------------------------
